@@ -610,11 +610,14 @@ pub fn metric_fields(data: &[u8]) -> Result<Vec<([u8; 4], i32)>, String> {
     v.push((*b"spyo", s(os2, 24)?));
     v.push((*b"strs", s(os2, 26)?));
     v.push((*b"stro", s(os2, 28)?));
-    v.push((*b"hasc", s(os2, 68)?));
-    v.push((*b"hdsc", s(os2, 70)?));
-    v.push((*b"hlgp", s(os2, 72)?));
-    v.push((*b"hcla", u(os2, 74)?));
-    v.push((*b"hcld", u(os2, 76)?));
+    // (a version 0 table in the 68 byte form of Apple's TrueType manual ends before these)
+    if os2.len() >= 78 {
+        v.push((*b"hasc", s(os2, 68)?));
+        v.push((*b"hdsc", s(os2, 70)?));
+        v.push((*b"hlgp", s(os2, 72)?));
+        v.push((*b"hcla", u(os2, 74)?));
+        v.push((*b"hcld", u(os2, 76)?));
+    }
     if u16at(os2, 0)? >= 2 && os2.len() >= 96 {
         v.push((*b"xhgt", s(os2, 86)?));
         v.push((*b"cpht", s(os2, 88)?));
